@@ -1346,12 +1346,17 @@ def generate_loopy(result: Array | AbstractResultWithNamedArrays | dict[str, Arr
     # optimization: remove any ImplStored tags on outputs to avoid redundant
     # store-load operations (see https://github.com/inducer/pytato/issues/415)
     # (This must be done after all the calls have been inlined)
-    outputs = DictOfNamedArrays(
-        {name: (output.without_tags(ImplStored(),
-                                    verify_existence=False)
-                if not isinstance(output,
-                                  InputArgumentBase)
+    # (one array under several output names must stay one array: stripping the
+    # tag separately per name would create equal-but-distinct copies)
+    output_to_untagged_output: dict[Array, Array] = {}
+    for output in outputs._data.values():
+        if output not in output_to_untagged_output:
+            output_to_untagged_output[output] = (
+                output.without_tags(ImplStored(), verify_existence=False)
+                if not isinstance(output, InputArgumentBase)
                 else output)
+    outputs = DictOfNamedArrays(
+        {name: output_to_untagged_output[output]
          for name, output in outputs._data.items()},
         tags=outputs.tags)
 
